@@ -14,7 +14,7 @@ by hand.  Nothing is applied to /repo itself; the worktree is removed at the end
 import os, random, re, subprocess, sys, shutil, json
 
 COUNT, SEED, OUT = int(sys.argv[1]), int(sys.argv[2]), sys.argv[3]
-WT, OUTDIR = "/tmp/scratch/camp-wt", "/tmp/scratch/camp-out"
+WT, OUTDIR = os.environ.get("CAMP_WT", "/tmp/scratch/camp-wt"), os.environ.get("CAMP_OUT", "/tmp/scratch/camp-out")
 ENV = dict(os.environ, GOFLAGS="-mod=mod", GOPROXY="off", GOSUMDB="off", GOTOOLCHAIN="local")
 FILES = ["url/parser.go", "url/hostparser.go", "url/url.go", "url/searchparams.go", "url/path.go", "url/inputstring.go",
          "url/codesets.go", "url/errorhandler.go", "url/parseroptions.go", "canonicalizer/canonicalizer.go", "canonicalizer/profiles.go",
